@@ -57,6 +57,9 @@ structure DState where
   shadow : Shadow := ⟨[], []⟩
   feeTracked : Bool := true         -- history began with instantiate or a fee-exact seed
   lastMig : Option MigMsg := none
+  -- role lists as the accepted configuration requests left them (C05 is judged against
+  -- these too, so a configuration change that silently fails to revoke a role is seen)
+  roles : Option (List String × List String) := none
   pend : Pending := {}
   -- counters (evidence)
   steps : Nat := 0
@@ -253,6 +256,10 @@ def judgeAccepted (env : Env) (s : State) (c : Call) (r : Response) (s' : State)
     | _ => true
   let v := if sane s then v.check "C11" (if exactStep then "sane" else "sane_inexact") (sane s') else v
   let v := v.check "C08" "C08_readyTracks" (C08_readyTracks s')
+  -- an order with nothing left must have left the book (else queries keep reporting it)
+  let v := v.check "C16" "C16_closedInvisible"
+    ((s'.asks.all fun kv => decide (kv.2.size > 0)) &&
+     (s'.bids.all fun kv => match kv.2 with | .v3 b => decide (b.remBase > 0) | .v2 _ => true))
   let v := v.check "C17" "C17_attrsOK" (C17_attrsOK s c r s')
   let v := v.check "C12" "C12_modifyOK" (C12_modifyOK s c.msg s')
   let v := if feeTracked && feeExact s then
@@ -362,7 +369,8 @@ def judge (d : DState) : Verdict × DState :=
         v.check "C13" "unknownKeys" (!hasUnknown p.deltas)
       else v.check "C13" "coherent_refused" (!coherent env m)
     (v, { d with st := if implOk then some s' else d.st,
-                 shadow := ⟨[], []⟩, feeTracked := true })
+                 shadow := ⟨[], []⟩, feeTracked := true,
+                 roles := if implOk then some (m.approvers, m.executors) else d.roles })
   | .exec c | .probe c =>
     let isProbe := match call with | .probe _ => true | _ => false
     match d.st with
@@ -374,7 +382,10 @@ def judge (d : DState) : Verdict × DState :=
         | .ok (ms, mr) =>
           if !implOk then v.diff ("accept:model-ok/impl-err:" ++ (p.res.getD "?")) (acceptProps c.msg ++ (if isProbe then ["C06"] else []))
           else
-            let v := if multisetEq mr.msgs implResp.msgs then v
+            -- who is paid how much of what (the mechanism is C10's business, decided by its
+            -- own predicate on the implementation's messages)
+            let flows := fun (ms : List Msg) => ms.map (flowOf env.contract)
+            let v := if multisetEq (flows mr.msgs) (flows implResp.msgs) then v
                      else v.diff "msgs" (msgProps c.msg ++ (if isProbe then ["C06"] else []))
             let v := if stateEq ms s' then v else v.diff "state" (stateProps c.msg)
             if attrsObsEq mr.attrs implResp.attrs then v else v.diff "attrs" ["C17"]
@@ -383,12 +394,22 @@ def judge (d : DState) : Verdict × DState :=
           else v
       let v := if implOk then
           let v := judgeAccepted env s c implResp s' d.feeTracked v
+          let v := match d.roles with
+            | some (aps, exs) =>
+              v.check "C05" "C05_rolesAsRequested"
+                (authorized { s with info := { s.info with approvers := aps, executors := exs } } c.sender c.msg)
+            | none => v
           v.check "C11" "unknownKeys" (!hasUnknown p.deltas)
         else judgeRefused env s c isProbe v
+      let roles' := match d.roles, c.msg with
+        | some (aps, exs), .modify ap ex _ _ _ _ _ _ =>
+          if implOk && !isProbe then some (ap.getD aps, ex.getD exs) else d.roles
+        | r, _ => r
       let sh' := if implOk && !isProbe then shadowStep d.shadow implResp.attrs else d.shadow
       let v := if implOk && !isProbe then v.check "C17" "C17_shadowOK" (C17_shadowOK sh' s') else v
       if isProbe then (v, d)
-      else (v, { d with st := some s', shadow := sh', lastMig := if implOk then none else d.lastMig })
+      else (v, { d with st := some s', shadow := sh', lastMig := if implOk then none else d.lastMig,
+                        roles := roles' })
   | .mig m =>
     match d.st with
     | none => ({}, d)
@@ -411,7 +432,11 @@ def judge (d : DState) : Verdict × DState :=
       let sh : Shadow :=
         ⟨s'.asks.map (fun kv => (kv.1, kv.2.size, shadowCls kv.2.cls)),
          s'.bids.filterMap (fun kv => match kv.2 with | .v3 b => some (kv.1, b.remBase) | .v2 _ => none)⟩
-      (v, { d with st := some s', shadow := sh, lastMig := if implOk then some m else d.lastMig })
+      let roles' := match d.roles with
+        | some (aps, exs) => if implOk then some (m.approvers.getD aps, exs) else d.roles
+        | none => none
+      (v, { d with st := some s', shadow := sh, lastMig := if implOk then some m else d.lastMig,
+                   roles := roles' })
   | .query q =>
     match d.st with
     | none => ({}, d)
